@@ -136,11 +136,22 @@ def action_sx(a, it):
 
 class Model:
     def __init__(self, driver=DRIVER):
+        self.driver = driver
         self.p = subprocess.Popen([driver], stdin=subprocess.PIPE, stdout=subprocess.PIPE, text=True, bufsize=1)
 
-    def ask(self, line):
+    def ask(self, line, timeout=None):
+        """timeout (seconds): for requests whose cost is not bounded by the size of the request (exhaustive exploration): when the
+        driver does not answer in time it is killed and restarted and dict(timeout=True) is returned (the caller skips the case)."""
         self.p.stdin.write(line + '\n')
         self.p.stdin.flush()
+        if timeout is not None:
+            import select
+            ready, _, _ = select.select([self.p.stdout], [], [], timeout)
+            if not ready:
+                self.p.kill()
+                self.p.wait()
+                self.p = subprocess.Popen([self.driver], stdin=subprocess.PIPE, stdout=subprocess.PIPE, text=True, bufsize=1)
+                return dict(timeout=True)
         out = self.p.stdout.readline()
         if not out:
             raise RuntimeError('model driver died')
